@@ -26,8 +26,11 @@ CLAIMS = {
           "validated flag before the first validation) and never a panic; 18 theorems incl. all refusals during an "
           "unfinished continue_async. The whole interpreter + API model is tied to the code on every run by "
           "transcript equality (results, callbacks, normalised save after every step) on histories with invalid "
-          "calls of every kind injected at random positions; the direct oracle is the lockstep of the same history "
-          "with and without the injected calls on the real code."),
+          "calls of every kind injected at random positions (every other history inside a named flow; refused loads of "
+          "damaged saves); the direct oracle is the lockstep of the same history with and without the injected calls "
+          "on the real code. Known finding C09-partial-load: a refused load_state is NOT atomic (a save damaged in a "
+          "field read late has replaced flows and variables when Err is returned); the model does the same and "
+          "Proofs/C09Load.lean proves the negation of atomicity on a concrete story."),
     design_ref="DESIGN.md section 5 C09",
     note=("Trusted: Lean kernel; axioms within propext/Classical.choice/Quot.sound; harness, driver and canonicaliser "
           "(observer events as sets, cosmetic choice index ignored in lockstep); StatePatch abstracted to a value "
@@ -227,15 +230,22 @@ CLAIMS = {
           "per escape) equals the reference JSON string parser (the model of the serde_json based loader) on EVERY "
           "input — same text, same rest, same rejections (unknown escapes, bad hex, lone / reversed surrogates, raw "
           "control characters, unterminated strings) — and both invert the compact serialisation and the all-ASCII "
-          "(\\uXXXX, surrogate pairs) serialisation of every string, at the fuel the loader really passes. NOT "
-          "proved (partial): equality of the two loaders above the token level (numbers, whitespace, object "
-          "structure) — decided by the tie and the oracle: for every document x layout (as emitted, all non-ASCII "
+          "(\\uXXXX, surrogate pairs) serialisation of every string, at the fuel the loader really passes. The WHOLE "
+          "streaming loader (tokenizer + json_read_stream.rs) is modelled (Ink/StreamLoad.lean); proved about it "
+          "(Proofs/C14Struct.lean): its white-space loop equals the reference parser's on every input, its number "
+          "test accepts exactly the texts the reference number parser consumes entirely, integer texts within i32 "
+          "are classified as that integer, the float conversions agree; the token / arity tables of the model are "
+          "proved equal to tables regenerated from the Rust source on every run (Proofs/Tables.lean). NOT proved "
+          "(partial): equality of the two loaders above the tokens (object structure): it is false for arbitrary "
+          "text (the streaming loader accepts some non-JSON and refuses some JSON that the default loader accepts: "
+          "DESIGN.md Ch.8) and on emitted documents it is decided by the tie and the oracle: the model of the "
+          "streaming loader gives the rows of the stream build on every document, and for every document x layout (as emitted, all non-ASCII "
           "escaped, pretty-printed two ways, with hostile text injected) the audit hook's rows of the default build, "
           "of the stream-json-parser build and the model's audit rows are equal, and a random play gives the same "
           "transcript under both builds."),
     design_ref="DESIGN.md section 5 C14",
     note="Documents keep the key order inkVersion, root, listDefs, which the streaming loader requires.",
-    technique="Lean 4 equivalence theorem for the two string readers (partial) + content-audit tie on both feature builds"),
+    technique="Lean 4 model of both loaders, equivalence theorems at the token level (partial) + content-audit tie on both feature builds"),
  "C20": dict(
     category="proof",
     text=("Model: Ink/Cli.lean, the tool's output as a function of the library's results (the interpreter model) and "
@@ -277,7 +287,13 @@ CLAIMS = {
           "Proved about the runtime model's look-ahead ('effects after a line end happen exactly once'): a step reports a "
           "line end only by rewinding to the snapshot taken at the line break, so everything executed while looking "
           "ahead is undone and runs again, once, from that state (continueSingleStep_rewind, stepLoop_newline, "
-          "lookahead_undone). NOT proved (no model of the compiler; partial): that compile+play equals the reference "
+          "lookahead_undone); and as a refinement (Proofs/C01Linear.lean): the state a blocking continue returns lies on the "
+          "LINEAR (look-ahead-free) trajectory of raw steps from the state it was given, a whole session of continues "
+          "and host calls is ONE linear run cut at the call ends, and the concatenated per-call effect logs (globals, "
+          "visit counts, turn indices, choices, temporaries) equal the log of that single run "
+          "(cont_is_linear_prefix, conts_are_one_linear_run, effect_log_eq; any fuel, by induction over the loop). "
+          "Formulations the language defines as equal (CONST forms vs literals) must compile and play identically "
+          "(corpus/c01/equal). NOT proved (no model of the compiler; partial): that compile+play equals the reference "
           "interpreter for every program — decided by the oracle: generated core programs x ALL choice sequences to "
           "depth 4 (5 in the thorough tier), real transcript vs reference transcript, disagreements minimised; the 18 "
           "reproducers of the 16 compiler deviations found this way (all repaired in /repo since) are replayed and must agree."),
